@@ -126,6 +126,25 @@ class ExprMixin:
 
     def cond(self, node, st):
         """truth value of an expression (python bool or z3 Bool)."""
+        if isinstance(node, ast.BoolOp):
+            # boolean context: only the truth values matter (operands may have unrelated types)
+            is_and = isinstance(node.op, ast.And)
+            ts = []
+            mark = len(st.pc)
+            try:
+                for e in node.values:
+                    t = self.cond(e, st)
+                    ts.append(t)
+                    if isinstance(t, bool):
+                        if t != is_and:
+                            break
+                        continue
+                    push_guard(st, t if is_and else z3.Not(t))
+            finally:
+                pop_guards(st, mark)
+            return z_and(*ts) if is_and else z_or(*ts)
+        if isinstance(node, ast.UnaryOp) and isinstance(node.op, ast.Not):
+            return z_not(self.cond(node.operand, st))
         v = self.eval(node, st)
         return self.truth(v, st, node)
 
@@ -413,7 +432,7 @@ class ExprMixin:
                 self.safety(st, z3.BoolVal(False), "KeyError", node)
                 raise Unsupported("constant key missing", node)
             x = recv.py[idx.py]
-            return x if isinstance(x, Val) else Val.const(x)
+            return x if isinstance(x, Val) else (Val.const(x) if isinstance(x, ops._CT) else self.wrap_py(x, str(idx.py)))
         if recv.is_py and isinstance(recv.py, dict):
             # concrete dict, symbolic key: lift when homogeneous
             if recv.ty is PYOBJ:
@@ -498,4 +517,8 @@ class ExprMixin:
         raise Unsupported("starred expression", node)
 
     def e_NamedExpr(self, node, st):
-        raise Unsupported("walrus", node)
+        v = self.eval(node.value, st)
+        if not isinstance(node.target, ast.Name):
+            raise Unsupported("walrus target", node)
+        st.env[node.target.id] = v
+        return v
